@@ -8,6 +8,7 @@ register("C04",
                    "GtModel.C04.matcher_protocol", "GtModel.C04.multiset_protocol",
                    "GtModel.C04.engine_protocol_every_machine", "GtModel.C04.mkEdit_invariant",
                    "GtModel.C04.mkEdit_initial_bounds", "GtModel.C04.engine_protocol",
+                   "GtModel.C04.mkEdit_invariant_dict", "GtModel.C04.engine_protocol_docs",
                    "GtModel.C04.bounds_sound", "GtModel.C04.observed_step", "GtModel.C04.converges",
                    "GtModel.C04.editDistance_fringe_lb_monotone", "GtModel.C04.editDistance_fringe_lb_sound",
                    "GtModel.C04.editDistance_final_le_total"],
@@ -15,12 +16,14 @@ register("C04",
          assumptions=["make_distinct step counts and assignment-solver answers are oracles recorded from the run; the "
                       "theorems hold for EVERY make_distinct oracle and every ADMISSIBLE solver answer (AssignOK: in "
                       "range, ordered by from index, injective, of size min(nf, nt))",
-                      "for DictNode documents the invariant of the fresh MultiSetEdit (mkMs), i.e. admissibility of "
-                      "the recorded solver answers, is validated by the trace stream, not proved"],
+                      "OrcFull: every recorded solver answer pairs min(nf, nt) nodes (hypothesis of the document-level "
+                      "theorems with key edits)"],
          trusted=["harness/lazyinst.py (passive recorder and per-object protocol checker)"],
          partial="engine_protocol_every_machine: proved with no hypothesis for EVERY machine class (const, kvp, str, "
                  "fixed, EditCollection, EditDistance, MultiSetEdit+matcher) satisfying the structural invariant; "
                  "engine_protocol: the machine of from.edits(to) satisfies it when there is no DictNode on the from "
                  "side (distinct keys, to-side in the domain fkOK of the static FixedKeyDictNodeEdit bound; outside "
-                 "fkOK the property is FALSE: finding D24 / coll-ub); not proved: the invariant of mkMs; "
+                 "fkOK the property is FALSE: finding D24 / coll-ub); engine_protocol_docs: FULL statement for every "
+                 "pair of documents and every option set (with key edits: every full-size solver oracle; without: "
+                 "distinct keys and fkOK); "
                  "'progress => strictly shrunk' holds for an observer that read bounds() before the step")
